@@ -275,4 +275,48 @@ example : PhysOk (sfWith [fileA] [] []) := fun _ h => h
 
 end Examples
 
+/-! ## `--clean` under repetition -/
+
+/-- removing the subtrees of `ds` and then those of any sub-collection `ds'` is removing the subtrees of `ds` -/
+theorem expectedAfter_again (fs : FS) (ds ds' : List Str) (h : ∀ d ∈ ds', d ∈ ds) :
+    expectedAfter (expectedAfter fs ds) ds' = expectedAfter fs ds := by
+  unfold expectedAfter
+  rw [List.filter_filter]
+  apply List.filter_congr
+  intro e _
+  cases hds : ds.any (fun d => within (pathOf d) e.1) with
+  | true => simp
+  | false =>
+    have : ds'.any (fun d => within (pathOf d) e.1) = false := by
+      rw [List.any_eq_false] at hds ⊢
+      intro d hd; exact hds d (h d hd)
+    simp [this]
+
+/-- **A second `--clean` removes nothing.**  After a successful `--clean`, another one — of the same spokfile re-read
+    (`sf'`: its globs re-expanded over the cleaned tree, so they hit no more than before), from any directory — that
+    designates nothing new leaves the tree exactly as the first left it: cleaning is idempotent and never "eats further"
+    into the project on repetition. -/
+theorem C12_second_clean_noop (sf sf' : SpokFile) (cwd cwd' : Str) (fs : FS) (run run' : FS → FS × Bool)
+    (hno : sf.hasTask cleanName = false) (hno' : sf'.hasTask cleanName = false)
+    (hok : (handleClean sf cwd fs run).err = none)
+    (hok' : (handleClean sf' cwd' (handleClean sf cwd fs run).fs run').err = none)
+    (hsub : ∀ d ∈ designatedList sf' cwd', d ∈ designatedList sf cwd) :
+    (handleClean sf' cwd' (handleClean sf cwd fs run).fs run').fs = (handleClean sf cwd fs run).fs := by
+  rw [(C12_exact sf' cwd' _ run' hno' hok').1, (C12_exact sf cwd fs run hno hok).1]
+  exact expectedAfter_again fs _ _ hsub
+
+/-- the special case of the very same spokfile value and directory -/
+theorem C12_idempotent (sf : SpokFile) (cwd : Str) (fs : FS) (run : FS → FS × Bool)
+    (hno : sf.hasTask cleanName = false) (hok : (handleClean sf cwd fs run).err = none)
+    (hok' : (handleClean sf cwd (handleClean sf cwd fs run).fs run).err = none) :
+    (handleClean sf cwd (handleClean sf cwd fs run).fs run).fs = (handleClean sf cwd fs run).fs :=
+  C12_second_clean_noop sf sf cwd cwd fs run run hno hno hok hok' (fun _ h => h)
+
+/-- non-vacuity of `C12_idempotent`: on the example project with the output `a.o` both cleans succeed (so every hypothesis
+    holds), the first removes something, the second nothing -/
+example : (handleClean (sfWith [fileA] [] []) proj tree (fun fs => (fs, true))).err = none ∧
+    (handleClean (sfWith [fileA] [] []) proj (handleClean (sfWith [fileA] [] []) proj tree (fun fs => (fs, true))).fs
+      (fun fs => (fs, true))).err = none ∧
+    (handleClean (sfWith [fileA] [] []) proj tree (fun fs => (fs, true))).fs ≠ tree := by decide
+
 end Spok.Props.C12
